@@ -162,6 +162,12 @@ theorem LPath.reach {cls : α → Cls} {R B K : Nat} {s0 s s' : St α} {ls : Lis
   | nil s => exact hr
   | cons ha _ ih => exact ih (.step hr (apply_sound ha))
 
+theorem lpath_nil_eq {α : Type} {cls : α → Cls} {R B K : Nat} {s s' : St α} (h : LPath cls R B K s [] s') : s' = s := by
+  generalize hl : ([] : List Label) = l at h
+  cases h with
+  | nil => rfl
+  | cons _ _ => cases hl
+
 end Rare.Pipeline
 
 namespace Rare.PipelineTrace
